@@ -29,7 +29,12 @@ package wal
 //@   ensures[C08]     err != nil ==> result0 == 0
 
 // A batch consumes exactly one sequence number, shared by its entries; an empty batch consumes none.
+// C02 / C03 (batch atomicity against process death): the records of a batch are not framed in the log, so the batch
+// is all-or-nothing only if it reaches the file in ONE write: when the first record is written, the whole batch
+// (totalSize bytes) must fit into the free space of the buffered writer, so that no record of it is handed to the file
+// before the others (A-MEM: a batch is smaller than 2^62 bytes, so the size computation does not wrap).
 //@ func (*WAL).AppendBatch
+//@   check[C02,C03] before call (*WAL).writeRecord#1: i > 0 || totalSize >= 4611686018427387904 || totalSize <= wrcap[w.writer] - (wrlen[w.writer] - wrflushed[w.writer])
 //@   nonblocking[C15]
 //@   modifies w.nextSequence, w.bytesWritten, w.batchByteSize, w.overflowWarning, w.lastSync, w.writer, all(Mem byte), wrlen, wrbytes, walLastType, wrflushed, filesyncs
 //@   ensures[C02]     err == nil && len(entries) > 0 && w.cfg.WALSyncMode == config.SyncImmediate ==> wrflushed[w.writer] == wrlen[w.writer] && filesyncs > old(filesyncs)
@@ -41,6 +46,8 @@ package wal
 
 // C02: synchronous logging - a nil result in SyncImmediate mode means that every byte written through the log's writer
 // so far has been flushed to the file and the file has been fsynced, in that order.
+//@ loop (*WAL).AppendBatch#2
+//@   invariant[C02,C03] idx == 0 && totalSize < 4611686018427387904 ==> totalSize <= wrcap[w.writer] - (wrlen[w.writer] - wrflushed[w.writer])
 //@ func (*WAL).maybeSync
 //@   modifies w.lastSync, w.batchByteSize, wrflushed, filesyncs
 //@   ensures[C02] err == nil && w.cfg.WALSyncMode == config.SyncImmediate ==> wrflushed[w.writer] == wrlen[w.writer] && filesyncs > old(filesyncs)
